@@ -94,7 +94,7 @@ func registry() map[string]PropSpec {
 	add(PropSpec{
 		ID: "C10",
 		Harnesses: []HSpec{
-			{Pkg: ".", Name: "c10_envblock", Quick: map[string]int{"entries": 2, "callervars": 1, "valueshapes": 2}, Thorough: map[string]int{"entries": 2, "callervars": 1, "valueshapes": 4}, Unwind: [2]int{40, 60}, Budget: [2]int{300, 2400},
+			{Pkg: ".", Name: "c10_envblock", Quick: map[string]int{"entries": 2, "callervars": 1, "valueshapes": 2}, Thorough: map[string]int{"entries": 2, "callervars": 1, "valueshapes": 3}, Unwind: [2]int{40, 60}, Budget: [2]int{300, 2400},
 				Models: []string{"github.com/buildkite/interpolate.Interpolate=vpModelInterpolate"}, Validate: []string{"interpolate"},
 				What:   "interpolateEnvBlock/Interpolate equal the in-order fold of the property statement: names and values expanded under caller env + earlier entries, rewritten in place, exported to the caller env unless runtime precedence applies, case-(in)sensitive caller env, later step strings expanded under the final env"},
 			{Pkg: ".", Name: "c10_collisions", Quick: map[string]int{"entries": 3}, Thorough: map[string]int{"entries": 4}, Unwind: [2]int{40, 60},
@@ -173,9 +173,9 @@ func registry() map[string]PropSpec {
 		Harnesses: []HSpec{
 			{Pkg: "ordered", Name: "c07_merge_chain", Quick: map[string]int{}, Unwind: [2]int{32, 32},
 				What: "DecodeYAML on merge chains (root merges a and/or c by alias or sequence of aliases, a merges c, merge at any position, symbolic keys): content and order equal the reference of the merge rules"},
-			{Pkg: "ordered", Name: "c07_graph", Quick: map[string]int{"pool": 1, "poolentries": 1, "rootentries": 2, "poolnested": 1}, Thorough: map[string]int{"pool": 1, "poolentries": 2, "rootentries": 2, "poolnested": 1}, Unwind: [2]int{32, 48}, Budget: [2]int{120, 1500},
+			{Pkg: "ordered", Name: "c07_graph", Quick: map[string]int{"pool": 1, "poolentries": 1, "rootentries": 2, "poolnested": 1}, Thorough: map[string]int{"pool": 1, "poolentries": 2, "rootentries": 2, "poolnested": 0}, Unwind: [2]int{32, 48}, Budget: [2]int{120, 1500},
 				What: "DecodeYAML on arbitrary small node graphs (value aliases incl. self/mutual cycles, aliases in sequences, alias keys, merges by alias / sequence / inline mapping, nested mappings): error iff a value cycle exists, otherwise equal to the reference; aliases expand to independent copies"},
-			{Pkg: "ordered", Name: "c07_graph", Quick: map[string]int{"pool": 1, "poolentries": 2, "rootentries": 1, "poolnested": 0}, Thorough: map[string]int{"pool": 2, "poolentries": 1, "rootentries": 2, "poolnested": 1}, Unwind: [2]int{32, 48}, Budget: [2]int{120, 1500},
+			{Pkg: "ordered", Name: "c07_graph", Quick: map[string]int{"pool": 1, "poolentries": 2, "rootentries": 1, "poolnested": 0}, Thorough: map[string]int{"pool": 2, "poolentries": 1, "rootentries": 1, "poolnested": 1}, Unwind: [2]int{32, 48}, Budget: [2]int{120, 1500},
 				What: "same, other distribution of entries between root and anchored mappings (two anchors in the thorough tier: mutual cycles, sequences of two merge sources)"},
 		},
 		Outside: []string{
